@@ -99,6 +99,9 @@ def k21_match_overrides(ctx, pid: str):
                     seen.add(id(raw))
                     funcs.append((c, raw))
     sm_cls = p.get_class("moclo.regex.SeqMatch")
+    if not hasattr(ctx, "k21_info"):
+        ctx.k21_info = {}
+    from .kernels import S0 as S0_, E3 as E3_
     for owner, fi in funcs:
         def base_hook(I, f, args, kwargs):
             I.path.effects.append(("super-match",))
@@ -131,6 +134,22 @@ def k21_match_overrides(ctx, pid: str):
                     ctx.report.ob("K21.case-sensitive-search", "%s#%s" % (name, e[1]), False,
                                   "the matched text is searched with str.%s without case normalisation: a lower-case spelling of the same record is screened differently" % e[1], fi.where())
             screened = [t for t, v in o.path.choices if t.startswith("arith ") and "len(fragments" in t]
+            info = ctx.k21_info.setdefault(name, {"raises": [], "digests": []})
+            for e in o.path.effects:
+                if e[0] == "catalyse":
+                    recv, cargs, ckw = e[1], e[2], e[3]
+                    whole = False
+                    if len(cargs) == 1 and not ckw and isinstance(cargs[0], (ASeq, ARec)):
+                        whole = I.same_pieces(cargs[0].pieces, I.circular_interval("W:x", N, S0_, E3_))
+                    info["digests"].append({"own_cutter": recv is I.kernel_args[0].attrs.get("cutter"), "whole_match": whole,
+                                            "extra_args": len(cargs) != 1 or bool(ckw)})
+            if o.kind == "raise" and screened:
+                lens = [s_ for s_ in I.path.cons.facts for s_ in [s_]]
+                lb = None
+                for sym in {x for f in I.path.cons.facts for x in f.symbols() if x.startswith("len(fragments")}:
+                    b = I.path.cons.bounds(Aff.sym(sym))[0]
+                    lb = b if lb is None else max(lb, b)
+                info["raises"].append({"min_fragments": lb, "moclo_error": _is_exc(p, o.value, "moclo.errors.InvalidSequence")})
             if o.kind == "raise":
                 ok = bool(screened) and _is_exc(p, o.value, "moclo.errors.InvalidSequence")
                 return [("K21.match-override", name, ok,
